@@ -1,23 +1,42 @@
 // Driver for property C06 (every forwarded copy goes to exactly the peers the
-// router rules require) for the one stimulus the common action alphabet lacks:
-// batch publishing.
+// router rules require) for the stimuli the common action alphabet lacks:
 //
 //	{"a":"batch","t":topic,"msgs":[{"m":name[,"localOnly":true][,"size":n]},...]}
 //	    Topic.AddToBatch for every entry (WithLocalPublication for local-only ones),
 //	    then PubSub.PublishBatch: ONE step line whose `ev` carries one Deliver per
 //	    message, in batch order.
 //
-// Everything else goes to world.Do. The driver never judges;
+//	{"a":"msg","p":sender,"t":topic,"m":name, ... one or more of
+//	   "rsa":1|2      the author is an RSA-2048 identity (not a connected peer; named "rsa1"/"rsa2"):
+//	                  its public key cannot be extracted from the peer id and travels in `key`
+//	   "withKey":true an Ed25519 author attaches its (redundant) public key in `key`
+//	   "unk":true     the message carries an unrecognised protobuf field (signed over)
+//	   "noseqno":true no `seqno` field
+//	   "nofrom":true  no `from` field (implies unsigned; lax signature policy only)
+//	   "unsigned":true, "size":n, "author":peer   as in the common alphabet}
+//	    the driver builds and registers the message (world.RegMsg) before the common
+//	    `msg` action sends it, so that world's copyEqual compares every copy the node
+//	    forwards field for field (marshalled bytes incl. key and unknown fields) with
+//	    what the fake peer sent.
+//
+// cfg "sign":"lax" builds the node with the LaxSign policy (unsigned messages are
+// accepted). Everything else goes to world.Do. The driver never judges;
 // spec/publish/PublishTrace.tla does.
 package c06
 
 import (
+	"crypto/rand"
+	"encoding/binary"
 	"os"
+	"sync"
 	"testing"
 	"testing/synctest"
 	"time"
 
 	pubsub "github.com/libp2p/go-libp2p-pubsub"
+	pb "github.com/libp2p/go-libp2p-pubsub/pb"
+	"github.com/libp2p/go-libp2p/core/crypto"
+	"github.com/libp2p/go-libp2p/core/peer"
 
 	"verifharness/hnet"
 	"verifharness/vh"
@@ -55,7 +74,117 @@ func configFrom(c M) world.Config {
 	p.OpportunisticGraftTicks = uint64(geti(c, "oppTicks", int(p.OpportunisticGraftTicks)))
 	p.FanoutTTL = time.Duration(geti(c, "fanoutTTLS", int(p.FanoutTTL/time.Second))) * time.Second
 	cfg.Params = &p
+	if gets(c, "sign") == "lax" {
+		cfg.Opts = append(cfg.Opts, pubsub.WithMessageSignaturePolicy(pubsub.LaxSign))
+	}
 	return cfg
+}
+
+// ---------------------------------------------------------------------------
+// RSA author identities (generated once per process: RSA key generation is slow)
+
+type ident struct {
+	priv crypto.PrivKey
+	id   peer.ID
+	kb   []byte // marshalled public key
+}
+
+var (
+	rsaOnce sync.Once
+	rsaIDs  [2]ident
+	rsaSeq  uint64 = 5000
+)
+
+func rsaIdent(n int) ident {
+	rsaOnce.Do(func() {
+		for i := range rsaIDs {
+			k, _, err := crypto.GenerateRSAKeyPair(2048, rand.Reader)
+			if err != nil {
+				panic(err)
+			}
+			id, err := peer.IDFromPrivateKey(k)
+			if err != nil {
+				panic(err)
+			}
+			kb, err := crypto.MarshalPublicKey(k.GetPublic())
+			if err != nil {
+				panic(err)
+			}
+			if pk, _ := id.ExtractPublicKey(); pk != nil {
+				panic("c06: RSA id embeds its key")
+			}
+			rsaIDs[i] = ident{k, id, kb}
+		}
+	})
+	if n == 2 {
+		return rsaIDs[1]
+	}
+	return rsaIDs[0]
+}
+
+func isVariant(a M) bool {
+	return geti(a, "rsa", 0) > 0 || getb(a, "withKey") || getb(a, "unk") || getb(a, "noseqno") || getb(a, "nofrom")
+}
+
+// prepareVariant builds the message of a `msg` action that asks for a field
+// variant and registers it under its name; the common action then sends it.
+func prepareVariant(t *testing.T, w *world.World, a M) {
+	name := gets(a, "m")
+	if w.Msg(name) != nil {
+		return
+	}
+	f := w.Fakes[gets(a, "p")]
+	if x := w.Fakes[gets(a, "author")]; x != nil {
+		f = x
+	}
+	if f == nil {
+		t.Fatalf("c06: msg variant from unknown peer %v", a)
+	}
+	size := geti(a, "size", 16)
+	topic := gets(a, "t")
+	var m *pb.Message
+	var priv crypto.PrivKey
+	if n := geti(a, "rsa", 0); n > 0 {
+		id := rsaIdent(n)
+		w.Names.AddPeer(id.id, vh.Sprintf("rsa%d", n))
+		rsaSeq++
+		seq := make([]byte, 8)
+		binary.BigEndian.PutUint64(seq, rsaSeq)
+		data := []byte(name + "|")
+		for len(data) < size {
+			data = append(data, '.')
+		}
+		m = &pb.Message{From: []byte(id.id), Seqno: seq, Topic: &topic, Data: data, Key: id.kb}
+		priv = id.priv
+	} else {
+		m = f.NewMessage(name, topic, size, false)
+		priv = f.H.Peerstore().PrivKey(f.H.ID())
+		if getb(a, "withKey") {
+			kb, err := crypto.MarshalPublicKey(priv.GetPublic())
+			if err != nil {
+				t.Fatal(err)
+			}
+			m.Key = kb
+		}
+	}
+	if getb(a, "unk") {
+		// field 15, wire type 2 (length-delimited), 5 bytes: unknown to pb.Message, kept in XXX_unrecognized
+		m.XXX_unrecognized = []byte{0x7a, 0x05, 'e', 'x', 't', 'r', 'a'}
+	}
+	if getb(a, "noseqno") {
+		m.Seqno = nil
+	}
+	unsigned := getb(a, "unsigned")
+	if getb(a, "nofrom") {
+		m.From = nil
+		unsigned = true
+	}
+	if unsigned {
+		m.Key = nil
+	} else if err := hnet.SignMessage(priv, m); err != nil {
+		t.Fatal(err)
+	}
+	w.RegMsg(name, m)
 }
 
 // resetArgs is what the reset line tells PublishTrace (thresholds are world's defaults).
@@ -64,6 +193,14 @@ func resetArgs(cfg world.Config) M {
 	return M{"score": cfg.Score, "flood": cfg.FloodPublish, "D": p.D, "Dlo": p.Dlo, "Dhi": p.Dhi, "Dscore": p.Dscore, "Dout": p.Dout,
 		"fanoutTTLMs": p.FanoutTTL.Milliseconds(), "hbMs": p.HeartbeatInterval.Milliseconds(), "oppTicks": int(p.OpportunisticGraftTicks),
 		"thr": M{"gossip": -2, "publish": -4, "graylist": -6, "acceptPX": 2, "oppGraft": 1}}
+}
+
+func resetWith(c M, cfg world.Config) M {
+	r := resetArgs(cfg)
+	if s := gets(c, "sign"); s != "" {
+		r["sign"] = s
+	}
+	return r
 }
 
 func marker(i int) {
@@ -102,12 +239,17 @@ func batch(t *testing.T, w *world.World, a M) {
 func runScenario(t *testing.T, out *vh.Out, idx int, s scenario) {
 	synctest.Test(t, func(t *testing.T) {
 		cfg := configFrom(s.Cfg)
-		w := world.New(t, out, idx, cfg, resetArgs(cfg))
+		w := world.New(t, out, idx, cfg, resetWith(s.Cfg, cfg))
 		defer w.Close()
 		for _, a := range s.Acts {
 			if gets(a, "a") == "batch" {
 				batch(t, w, a)
-			} else if !w.Do(a) {
+				continue
+			}
+			if gets(a, "a") == "msg" && isVariant(a) {
+				prepareVariant(t, w, a)
+			}
+			if !w.Do(a) {
 				t.Fatalf("unknown action %v", a)
 			}
 		}
